@@ -1874,6 +1874,14 @@ static void get_user_data (interactive_t* ip, io_event_t* evt) {
           text_space = (MAX_TEXT - ip->text_end - 1) / 3;
           if (text_space < MAX_TEXT / 16)
             {
+              if (cmd_in_buf (ip))
+                {
+                  /* The buffer is full of complete commands that have not been served yet
+                   * (the client sends faster than one command per cycle). Leave the new data
+                   * in the socket until some of them have been executed.
+                   */
+                  return;
+                }
               /* We've got almost 2k of data without a newline.
                * Discard buffer to prevent DoS from extremely long lines.
                */
